@@ -88,6 +88,9 @@ Memb(ds, n) ==
 Filter(ds, cond, env) ==
     LET vals == [r \in ds.rows |-> EvalC(cond, r, env)]
     IN  IF \E r \in ds.rows : IsErr(vals[r]) THEN E("runtime")
+        \* a condition VTL leaves undetermined (e.g. trunc of a value on a representation boundary): whether the
+        \* datapoint is kept is undetermined, the statement is not judged
+        ELSE IF \E r \in ds.rows : IsUndet(vals[r]) THEN E("undetermined")
         ELSE [comps |-> ds.comps, rows |-> { r \in ds.rows : vals[r] = T }]
 
 Keep(ds, names) ==
